@@ -277,6 +277,7 @@ class Live(Family):
     """the full GeminiClient (TOFU on, temporary pin store) against up to three scripted loopback TLS servers that
     count TCP connections and log request lines: bound, scheme, pin check on every hop, faults (a server that drops
     a connection without answering), follow_redirects on/off"""
+    realtime = True     # runs on the wall clock (sockets, threads): a failure is re-run once before it counts (core.run_family)
 
     name = "live"
     quick_n = 96
